@@ -2,6 +2,7 @@ package rules
 
 import (
 	"go/ast"
+	"go/token"
 	"go/types"
 
 	"gnetlint/core"
@@ -139,4 +140,118 @@ func taintedBy(info *types.Info, body ast.Node, seed types.Object) map[types.Obj
 		})
 	}
 	return out
+}
+
+func init() {
+	register(&core.Rule{ID: "C18.8", Prop: "C18", MinSites: 3,
+		Desc: "a failed write is not reported as success: in the *conn functions that write a payload to the socket, every return on the edge where the write syscall failed with something other than EAGAIN hands back that error (the deferred close of the connection and the caller's error handling key on it)",
+		Run: runC18_8})
+}
+
+func runC18_8(c *core.Ctx) {
+	a := outAnchors(c)
+	if a == nil {
+		return
+	}
+	for _, f := range a.connMethods() {
+		var errObj types.Object
+		ast.Inspect(f.Decl.Body, func(n ast.Node) bool {
+			var lhs []ast.Expr
+			var rhs ast.Expr
+			switch x := n.(type) {
+			case *ast.AssignStmt:
+				if len(x.Rhs) == 1 {
+					lhs, rhs = x.Lhs, x.Rhs[0]
+				}
+			}
+			if rhs == nil {
+				return true
+			}
+			if call, ok := ast.Unparen(rhs).(*ast.CallExpr); ok {
+				if d, _ := a.streamWrite(f, call); d != nil && len(lhs) == 2 {
+					errObj = flow.ObjOf(f.Info, lhs[1])
+				}
+			}
+			return true
+		})
+		if errObj == nil {
+			continue
+		}
+		const (
+			sIdle = iota
+			sSent
+			sErr
+			sHard
+		)
+		au := &flow.Auto{Start: sIdle}
+		au.Node = func(b *flow.Block, i int, n ast.Node, s int) int {
+			for _, call := range flow.Calls(n) {
+				if d, _ := a.streamWrite(f, call); d != nil {
+					s = sSent
+				}
+			}
+			if as, ok := n.(*ast.AssignStmt); ok && s == sHard {
+				for _, l := range as.Lhs {
+					if flow.ObjOf(f.Info, l) == errObj {
+						s = sIdle // the error variable was replaced deliberately
+					}
+				}
+			}
+			return s
+		}
+		au.Edge = func(e *flow.Edge, s int) int {
+			if e.Cond == nil || e.Tag != nil {
+				return s
+			}
+			switch s {
+			case sSent:
+				if x, y, op, ok := flow.Cmp(e.Cond); ok && flow.IsNil(f.Info, y) && flow.ObjOf(f.Info, x) == errObj {
+					if (op == token.NEQ) == e.Sense {
+						return sErr
+					}
+					return sIdle
+				}
+			case sErr:
+				if isErrnoCmp(f, e.Cond, "EAGAIN") {
+					if e.Sense {
+						return sIdle
+					}
+					return sHard
+				}
+			}
+			return s
+		}
+		sol := f.Graph().Run(au)
+		k := 0
+		sol.AtExit(func(b *flow.Block, _ uint64) {
+			st := sol.Out(b)
+			if st&(1<<sHard|1<<sErr) == 0 {
+				return
+			}
+			k++
+			r := b.Return
+			okk := false
+			if len(r.Results) == 0 {
+				okk = true // bare return of the named error result that the syscall assigned
+				if sig, ok := f.Obj.Type().(*types.Signature); ok {
+					okk = false
+					for i := 0; i < sig.Results().Len(); i++ {
+						if types.Object(sig.Results().At(i)) == errObj {
+							okk = true
+						}
+					}
+				}
+			}
+			for _, res := range r.Results {
+				ast.Inspect(res, func(m ast.Node) bool {
+					if id, ok := m.(*ast.Ident); ok && f.Info.Uses[id] == errObj {
+						okk = true
+					}
+					return true
+				})
+			}
+			c.Check(okk, f.Name, "hard write error returned #"+itoa(k), r.Pos(), "the syscall's error reaches the caller",
+				"after the write syscall failed with an error other than EAGAIN the function returns without that error: the deferred close does not fire and the caller believes the data was accepted, although the socket is broken")
+		})
+	}
 }
